@@ -87,9 +87,15 @@ PLANS["C19"] = dict(stages=[dict(bin="nsq_to_file", world="tofile", prop="C19", 
     components=dict(real=REAL_APP + ["apps/nsq_to_file: newTopicDiscoverer/run, FileLogger (HandleMessage, router, Sync, Close, updateFile, exclusiveRename), strftime"], stub=STUB_Q + ["main() flag parsing is not executed: Options are filled in directly; signals are delivered on the channels main() would register"]),
     assumptions=ASSUME + ["SIGKILL model: every completed system call is visible after the kill, nothing of a call not yet made is; a killed process's later calls fail and its connections are cut at the same instant"], crash_property="C19")
 
-WORLD_BIN = {"tofile": "nsq_to_file", "policy": "world", "queue": "world", "lookupd": "world", "proto": "world", "meta": "world", "cluster": "world", "admin": "world"}
+PLANS["C20"] = dict(stages=[dict(bin="to_nsq", world="tonsq", prop="C20", share=0.2), dict(bin="nsq_to_nsq", world="nsq2nsq", prop="C20", share=0.4), dict(bin="nsq_to_http", world="nsq2http", prop="C20", share=0.4)],
+    quick_s=45, thorough_s=900, level="exploration",
+    rule="three stages, each evaluation one seeded run: (to_nsq) the real main() of to_nsq reads a generated byte stream (any bytes, drawn delimiter, empty records, records around the 4096/8192 bufio boundaries, with or without a final delimiter) through a reader that returns arbitrary short reads, optionally rate-limited, and publishes to 1-2 stub nsqds; every destination must have accepted exactly the non-empty records, byte-exact, in order; (nsq_to_nsq) the real main() between a real source nsqd and 1-3 stub nsqds that accept / reject / reject-and-close / stall / reset / refuse on generated commands, in round-robin, hostpool and epsilon-greedy mode, with and without a require-json-field filter and destination-topic; (nsq_to_http) the same with 1-3 stub HTTP endpoints answering 200 / 204 / 500 / 404 / 304 / stall / reset / refuse, GET and POST; in both relay stages a tap on the application's source connections shows every FIN and REQ it writes: at each FIN some destination must already have accepted the body (unless the requested filter drops it), and once every destination accepts again every source message must have arrived within 4 simulated hours, unmodified; distinct = distinct schedule fingerprint; non-trivial = at least one record compared / one FIN checked",
+    components=dict(real=REAL_APP + ["apps/to_nsq, apps/nsq_to_nsq, apps/nsq_to_http: the real main() (flag parsing on a fresh FlagSet bound to the package's flag variables, option validation, producers/consumers, responder, signal handling)", "github.com/bitly/go-hostpool, timer_metrics"], stub=STUB_Q + ["stub destination nsqds (minimal V2 server in the harness)", "stub HTTP endpoints (net/http handlers in the harness)", "simos.Stdin reader with short reads"]),
+    assumptions=ASSUME, crash_property="C20")
+
+WORLD_BIN = {"tonsq": "to_nsq", "nsq2nsq": "nsq_to_nsq", "nsq2http": "nsq_to_http", "tofile": "nsq_to_file", "policy": "world", "queue": "world", "lookupd": "world", "proto": "world", "meta": "world", "cluster": "world", "admin": "world"}
 SELFTEST_WORLDS = [("queue", "ALL"), ("queue", "C08"), ("queue", "C05"), ("lookupd", "C14"), ("lookupd", "C15")]
-ALL_TARGETS = ["world", "world_race", "nsq_to_file"]
+ALL_TARGETS = ["world", "world_race", "nsq_to_file", "to_nsq", "nsq_to_nsq", "nsq_to_http"]
 
 SIMNOTE = ("assumes the trusted base of DESIGN.md 6: Go 1.26.8 synctest + five runtime patches, the two-rule AST rewriter, simnet/simos fidelity, "
            "one-P atomicity between synchronisation operations; oracles see the wire only (frames, HTTP, /stats, data directory)")
@@ -123,9 +129,10 @@ MANIFEST_TEXT["C11"] = mt("seeded search over policy configurations and command 
 
 MANIFEST_TEXT["C19"] = mt("fault enumeration inside seeded histories: every FIN the real nsq_to_file writes (connection tap) and every file-system mutation it performs (simos hooks) is a stop point; at each the acknowledged messages must be inside fsynced, readable (gzip: complete members) file content, and files that existed before (earlier instances, planted collisions) keep their content; SIGTERM/SIGHUP/SIGKILL-at-the-k-th-call with restarts, disk faults, connection resets. Histories are sampled by seed; stop points within a history are enumerated exhaustively.", "DESIGN.md 3 C19 / 7.2", "deterministic simulation: stop-point enumeration over FIN taps and simos hooks")
 
+MANIFEST_TEXT["C20"] = mt("seeded search with the real main() of to_nsq, nsq_to_nsq and nsq_to_http in the bubble: to_nsq against a reference record splitter (short reads, buffer boundaries, missing final delimiter); the relays between a real source nsqd and stub destinations that fail in generated patterns, with a tap on the source connections: no FIN before a destination accepted the body, every message arrives at least once after the faults stop, nothing modified.", "DESIGN.md 3 C20 / 7.2", "deterministic simulation: reference splitter + FIN-after-acceptance taps + bounded liveness after faults")
+
 MANIFEST_TEXT["C17"] = mt("seeded search over route x identity x admin-list x header-name x source-address configurations against the real nsqadmin in front of recording stub upstreams; oracle: 403 and zero upstream requests for every unauthorised mutation, fan-out to every relevant upstream for authorised ones, CIDR gate on /config. Input- and configuration-driven; the simulator contributes source addresses, the per-step upstream request log and determinism.", "DESIGN.md 3 C17", "deterministic simulation: authorisation matrix with upstream request log")
 MANIFEST_TEXT["C18"] = mt("seeded search over generated cluster contents and upstream fault subsets against the real nsqadmin/clusterinfo; oracle: reference union/sum aggregation computed from the stub data, warning/502 mapping, liveness after every request.", "DESIGN.md 3 C18", "deterministic simulation: reference aggregation under upstream faults")
 
 NOT_APPLICABLE = {
- "C20": "not yet built in this session",
 }
